@@ -339,8 +339,8 @@ void gen(Rng& r, Plan& p, const GenParams& gp) {
   p.cfg["pushC"] = !(disc == 1 || disc == 3);
   p.cfg["popC"] = !(disc == 2 || disc == 3);
   p.cfg["comp"] = comp;
-  static const int64_t ep[] = {0, 0, 0, 3, 32766, 32767, 65534};
-  p.cfg["epoch0"] = ep[r.below(7)];
+  static const int64_t ep[] = {0, 0, 0, 3, 32766, 32767, 65534, 65535};
+  p.cfg["epoch0"] = ep[r.below(8)];
   p.cfg["end_clear"] = r.chance(1, 5);
   p.cfg["max_idle_jumps"] = 3000;
   if (!c02 && r.chance(1, 10)) {
